@@ -364,7 +364,7 @@ func (w *vfC10World) memory() (es []vfC10Entry) {
 	w.v4.leasesLock.Lock()
 	defer w.v4.leasesLock.Unlock()
 
-	for _, l := range w.v4.getLeasesRef() {
+	for _, l := range w.v4.leases {
 		es = append(es, vfC10EntryOf(l.HWAddr, l.IP, l.Hostname, l.IsStatic, l.Expiry))
 	}
 
@@ -424,7 +424,7 @@ func (w *vfC10World) advance(d time.Duration) {
 	isSet := func(ts time.Time) bool { return ts.Year() > 2000 }
 
 	w.v4.leasesLock.Lock()
-	for _, l := range w.v4.getLeasesRef() {
+	for _, l := range w.v4.leases {
 		if !l.IsStatic && isSet(l.Expiry) {
 			l.Expiry = l.Expiry.Add(-d)
 		}
